@@ -276,7 +276,12 @@ fn after_ok_dispatch(timeout: Option<Duration>, elapsed: Duration) {
             let after_enable = s.enabled_since_cb;
             let cause = kind_cause_name(&kind);
             let detail = format!("source #{} ({}) had a pending cause when dispatch {} began ({}) but its callback was not invoked", uid, kind.name(), d, reason);
+            let from_cb = w.srcs[i].cause_from_cb;
             w.alarm("C02.missed", &format!("{}-not-dispatched", cause), detail.clone());
+            if from_cb {
+                // the event an operation produces is the same whether the operation was issued inside a callback or outside
+                w.alarm("C08.effect_as_outside", &format!("{}-caused-inside-a-callback-never-delivered", cause), detail.clone());
+            }
             match kind {
                 Kind::Timer { .. } => w.alarm("C05.first_dispatch", "expired-timer-not-fired", detail.clone()),
                 Kind::Ping => w.alarm("C03.no_lost", "ping-not-delivered", detail.clone()),
